@@ -4,6 +4,14 @@ the engines and DESIGN.md are edited in one place)."""
 import json, subprocess, sys
 
 CHECKS = {
+ "C01": dict(engine="progspace", design="§4 C01",
+   technique="bounded-exhaustive enumeration of programs (all expression trees <= k constructors x 26 contexts, two-module products, annotation matrix) through the real load+compile+eval+emit in worker processes; oracle: accepted => document or located error, never panic/abort/hang",
+   text="Every program of the stated bounded spaces (quick: 0.58 M, thorough: 13.8 M programs) is run through the real pipeline; the checker decides acceptance and every accepted program must evaluate and emit without panic, abort (stack overflow / OOM are attributed to the case by the worker-process explorer) or hang (watchdog), returning a document or an error whose span lies in the sources. The space is closed under all syntax forms in all positions, so it visits the gap between 'checker says yes' and 'evaluator can cast the value' that the example tests never enter.",
+   note="Bounds: expression size, one hole per context, <= 2 modules, 8 MiB stack. A panic during load/compile is C04's business. Crashes are classified by panic site + value variant and, for multi-module programs, by whether the merged single-module program is rejected; genuine defects already found are listed in known-findings.json."),
+ "C02": dict(engine="progspace", design="§4 C02, §3.2, §3.3",
+   technique="bounded-exhaustive enumeration of ten kind-directed program fragments; each program is compiled by the real pipeline and evaluated by an independent reference semantics; emitted YAML is extracted into an abstract document and compared exactly (implicit components by bisimulation)",
+   text="For every program of fragments F1-F10 (schemas, contents x ranges, transfers, URIs/concat, declarations and scoping under all statement orders, recursion, @references, modules, annotations, collisions) the document emitted by the real compiler must equal the document computed by an independent, lexically scoped reference evaluator: same paths, operations, parameters, bodies, (status, media) responses, headers, required flags and annotations, same @components, implicit components equal up to unfolding and none left over.",
+   note="The reference evaluator (refsem.rs), the YAML extractor (doc.rs) and serde_yaml are trusted. Constructs the language leaves undefined are reported as `unspecified` by the reference and only checked for crashes (listed in DESIGN.md §3.2). Map key order is not compared."),
  "C16": dict(engine="textspace", design="§4 C16",
    technique="explicit-state exhaustive enumeration of all texts <= n symbols x all offsets/positions/spans through the real conversion functions, compared with a line-table reference model",
    text="Every text of up to 6 (quick) / 8 (thorough) symbols over {a, é, €, 😉, LF, CRLF} is a state; every byte offset, every (line, character) position including out-of-range ones and every span is converted by the real position_to_utf8 / utf8_to_position / utf8_range_to_position / CharSpan::from and compared with an independent line-table model. The space is enumerated completely, so the verdict is 'no text of that size has a wrong conversion', which example tests cannot give.",
